@@ -11,7 +11,7 @@ pub fn kinds_for(prop: &str) -> Vec<&'static str> {
         "C01" => vec!["model", "garbage", "clone-count"],
         "C02" => vec!["model", "garbage", "iter", "clone-count"],
         "C03" => REGISTRY_KINDS.to_vec(),
-        "C08" => vec!["model", "garbage", "clone-count", "shared-storage", "handle", "meta", "double-drop", "corrupt-drop", "dup", "dead-visible", "leak", "value-accounting"],
+        "C08" => vec!["model", "garbage", "clone-count", "shared-storage", "handle", "meta", "double-drop", "corrupt-drop", "dup", "dead-visible", "leak", "value-accounting", "len>cap", "guard"],
         "C09" => vec!["model", "clone-count", "lazy", "dup", "double-drop", "handle"],
         "C10" => vec!["capacity", "len>cap", "model", "garbage"],
         "C14" => vec!["iter", "model"],
@@ -19,12 +19,12 @@ pub fn kinds_for(prop: &str) -> Vec<&'static str> {
         "C12" => vec!["view", "align", "garbage", "meta"],
         "C05" => vec!["guard", "stale-write", "garbage", "corrupt-drop", "corrupt-clone", "len>cap", "lifecycle", "crash", "alloc-layout"],
         "C11" => vec!["model", "garbage", "capacity", "stack-alloc", "clone-count"],
-        "C18" => vec!["alloc-shape", "alloc-layout", "alloc-invalid", "alloc-leak", "align", "meta"],
+        "C18" => vec!["alloc-shape", "alloc-layout", "alloc-invalid", "alloc-leak", "align", "meta", "rawparts"],
         "C06" => vec!["double-drop", "corrupt-drop", "corrupt-clone", "clone-of-dead", "dup", "dead-visible", "garbage", "model", "guard", "stale-write", "len>cap", "crash", "meta", "view"],
         "C19" => vec!["model", "garbage", "stack-alloc", "capacity", "iter", "clone-count", "double-drop", "leak", "dup"],
         "C07" => vec!["forget-prefix", "model", "garbage", "dup", "dead-visible", "double-drop", "corrupt-drop", "iter"],
         "C13" => vec!["handle", "model", "garbage", "view"],
-        "C17" => vec!["rawparts", "model", "garbage", "leak", "double-drop", "alloc-leak", "alloc-shape", "alloc-layout", "dup"],
+        "C17" => vec!["rawparts", "model", "garbage", "leak", "double-drop", "alloc-leak", "alloc-shape", "alloc-layout", "alloc-invalid", "dup"],
         _ => vec![],
     };
     k.push("harness");
@@ -103,6 +103,7 @@ pub fn run(ctx: &mut Ctx) {
             fam::exhaustive(ctx, "clone", &cfgs, l, false, &fam::clone_ops);
             crate::special::c08_clone_from(ctx);
             crate::special::meta_grid(ctx);
+            crate::special::prealloc_backend(ctx);
             scale(ctx);
         }
         "C09" => {
@@ -168,6 +169,7 @@ pub fn run(ctx: &mut Ctx) {
             }
             hvcore::guard::set_default_growth(hvcore::guard::Growth::Exact);
             if !stack_only {
+                crate::special::prealloc_backend(ctx);
                 crate::special::c05_live_growth(ctx);
                 scale(ctx);
                 crate::special::c10_large(ctx);
@@ -204,6 +206,7 @@ pub fn run(ctx: &mut Ctx) {
             fam::histories(ctx, "mixed-hist", &cfgs, &hist(thorough, true, true, true, true));
             if ctx.sub != "light" && !ctx.tool_mode {
                 crate::special::c18_overflow(ctx);
+                crate::special::c17_builders(ctx);
                 crate::special::meta_grid(ctx);
                 scale(ctx);
                 crate::special::c10_large(ctx);
@@ -240,6 +243,7 @@ pub fn run(ctx: &mut Ctx) {
             scale(ctx);
         }
         "C17" => {
+            crate::special::c17_builders(ctx);
             cfgs.retain(|c| c.mem == hvcore::rigapi::MemKind::Heap);
             fam::exhaustive(ctx, "rawparts", &cfgs, l.min(5), false, &fam::rawparts_ops);
             fam::histories(ctx, "rawparts-hist", &cfgs, &hist(thorough, true, true, true, true));
